@@ -145,3 +145,138 @@ Proof.
   injection H as ->.
   destruct (fileslice_prefix _ F n ix shape w off OrdF r E) as [-> | [e ->]]; [left|right]; reflexivity.
 Qed.
+
+(* ------------------------------------------------------------------ any reader, raising or not
+   The contract of a reader of (a truncated delivery of) the file F: whatever a seek+read returns
+   without raising is a prefix of what the same seek+read returns on the complete file.  A plain
+   truncated file and a silently ending stream satisfy it (they return fewer bytes), a raising
+   stream satisfies it (it returns all the bytes or raises), and so does any mixture. *)
+Definition reader_below (F : list Z) (rd : Z -> Z -> res (list Z)) : Prop :=
+  forall o l a, rd o l = Ok a -> exists a', fread_at F o l = Ok a' /\ prefix a a'.
+
+Lemma reader_below_plain F n : reader_below F (fread_at (take n F)).
+Proof. intros o l a H. exact (fread_at_prefix F n o l a H). Qed.
+
+Lemma reader_below_raising F avail : reader_below F (rd_raising F avail).
+Proof.
+  intros o l a. unfold rd_raising.
+  assert (P : fread_at F o l = Ok a -> exists a', fread_at F o l = Ok a' /\ prefix a a')
+    by (intros E; exists a; split; [exact E|apply prefix_refl]).
+  destruct (avail <? zlen F); [|exact P].
+  destruct (o <? 0); [discriminate|]. destruct (l <? 0); [discriminate|].
+  destruct (Z.min (o + l) (zlen F) <=? avail); [exact P|discriminate].
+Qed.
+
+(* the same, said directly: a raising reader returns exactly what the complete file returns *)
+Lemma rd_raising_exact F avail o l a : rd_raising F avail o l = Ok a -> fread_at F o l = Ok a.
+Proof.
+  unfold rd_raising. destruct (avail <? zlen F); [|exact (fun E => E)].
+  destruct (o <? 0); [discriminate|]. destruct (l <? 0); [discriminate|].
+  destruct (Z.min (o + l) (zlen F) <=? avail); [exact (fun E => E)|discriminate].
+Qed.
+
+Lemma fileslice_r_read_all F : forall segs, read_all_r (fread_at F) segs = read_all F segs.
+Proof. induction segs as [|[o l] r IH]; [reflexivity|]. cbn [read_all_r read_all]. rewrite IH. reflexivity. Qed.
+
+Lemma fileslice_r_plain h F ix shape w off o :
+  fileslice_r (fread_at F) h ix shape w off o = fileslice_h h F ix shape w off o.
+Proof.
+  unfold fileslice_r, fileslice_h.
+  assert (E : forall segs nb, read_segments_r (fread_at F) segs nb = read_segments F segs nb).
+  { intros segs nb. unfold read_segments_r, read_segments. destruct segs as [|[o1 l1] [|s2 r]]; try reflexivity.
+    rewrite fileslice_r_read_all. reflexivity. }
+  unfold bind. destruct (calc_slicedefs ix shape w off o h) as [[[segs rshape] ps]|e]; [|reflexivity].
+  rewrite E. reflexivity.
+Qed.
+
+Section AnyReader.
+  Variables (F : list Z) (rd : Z -> Z -> res (list Z)).
+  Hypothesis RB : reader_below F rd.
+
+  Lemma read_all_r_prefix : forall segs bP bF,
+    read_all_r rd segs = Ok bP -> read_all F segs = Ok bF ->
+    (length bP <= length bF)%nat /\ (length bP = length bF -> bP = bF).
+  Proof.
+    induction segs as [|[o l] r IH]; intros bP bF HP HF; cbn [read_all_r read_all] in HP, HF.
+    - injection HP as <-. injection HF as <-. split; [lia|reflexivity].
+    - unfold bind in HP, HF. revert HP HF.
+      destruct (rd o l) as [a|] eqn:Ea; [|intros HP; cbv beta iota in HP; discriminate HP].
+      destruct (RB o l a Ea) as (a' & Ea' & Hp). rewrite Ea'.
+      destruct (read_all_r rd r) as [tP|] eqn:EtP; [|intros HP; cbv beta iota in HP; discriminate HP].
+      destruct (read_all F r) as [tF|] eqn:EtF; [|intros _ HF; cbv beta iota in HF; discriminate HF].
+      intros HP HF. injection HP as <-. injection HF as <-.
+      destruct (IH tP tF eq_refl eq_refl) as [Hl He]. pose proof (prefix_len _ _ Hp) as Hla.
+      rewrite !app_length. split; [lia|]. intros E.
+      assert (length a = length a') by lia. assert (length tP = length tF) by lia.
+      rewrite (prefix_same_len _ _ Hp) by assumption. rewrite He by assumption. reflexivity.
+  Qed.
+
+  Lemma read_segments_r_prefix segs nb bP bF :
+    read_segments F segs nb = Ok bF -> read_segments_r rd segs nb = Ok bP -> bP = bF.
+  Proof.
+    unfold read_segments, read_segments_r. destruct segs as [|[o l] [|s2 r]].
+    - destruct (nb =? 0); congruence.
+    - unfold bind.
+      destruct (rd o l) as [a|] eqn:Ea; [|intros _ HP; discriminate HP].
+      destruct (RB o l a Ea) as (a' & Ea' & Hp). rewrite Ea'.
+      destruct (Z.eqb_spec (zlen a) nb) as [E1|]; [|intros _ HP; discriminate HP].
+      destruct (Z.eqb_spec (zlen a') nb) as [E2|]; [|intros HF; discriminate HF].
+      intros HF HP. injection HP as <-. injection HF as <-.
+      apply prefix_same_len; [exact Hp|]. apply zlen_length. congruence.
+    - destruct (nb =? 0).
+      + destruct (forallb _ _); congruence.
+      + unfold bind.
+        destruct (read_all_r rd _) as [b|] eqn:EbP; [|intros _ HP; discriminate HP].
+        destruct (read_all F _) as [b'|] eqn:EbF; [|intros HF; discriminate HF].
+        destruct (Z.eqb_spec (zlen b) nb) as [E1|]; [|intros _ HP; discriminate HP].
+        destruct (Z.eqb_spec (zlen b') nb) as [E2|]; [|intros HF; discriminate HF].
+        intros HF HP. injection HP as <-. injection HF as <-.
+        destruct (read_all_r_prefix _ _ _ EbP EbF) as [_ He]. apply He. apply zlen_length. congruence.
+  Qed.
+
+  (* fileslice through ANY reader below F: the result of the complete file, or an exception *)
+  Lemma fileslice_reader (h : heuristic) ix shape w off o r :
+    fileslice_h h F ix shape w off o = Ok r ->
+    fileslice_r rd h ix shape w off o = Ok r \/ exists e, fileslice_r rd h ix shape w off o = Err e.
+  Proof.
+    unfold fileslice_h, fileslice_r, bind.
+    destruct (calc_slicedefs ix shape w off o h) as [[[segs rshape] ps]|e]; [|intros HF; cbv beta iota in HF; discriminate HF].
+    destruct (read_segments F segs (prod rshape * w)) as [bF|] eqn:EF; [|intros HF; cbv beta iota in HF; discriminate HF].
+    destruct (read_segments_r rd segs (prod rshape * w)) as [bP|e] eqn:EP; [|intros _; right; eexists; reflexivity].
+    rewrite (read_segments_r_prefix segs _ bP bF EF EP). intros HF. left. exact HF.
+  Qed.
+
+  Lemma fileslice_reader_numpy (h : heuristic) ix shape w off o c :
+    h_ok h -> 0 < w -> 0 <= off ->
+    canonical_slicers true ix shape = Ok c -> ix_valid shape c ->
+    off + w * prod shape <= zlen F ->
+    fileslice_r rd h ix shape w off o = Ok (result_of o F shape w off c)
+    \/ exists e, fileslice_r rd h ix shape w off o = Err e.
+  Proof.
+    intros Hh Hw Ho Hc Hv Hl.
+    destruct (fileslice_eq_numpy h F ix shape w off o c Hh Hw Ho Hc Hv Hl) as [E1 E2].
+    apply fileslice_reader. rewrite E1. exact E2.
+  Qed.
+End AnyReader.
+
+(* the reads of the sweep through a raising stream *)
+Lemma partial_read_raising F avail ix shape w off r :
+  partial_read F ix shape w off = Some r ->
+  partial_read_r (rd_raising F avail) ix shape w off = Some r
+  \/ partial_read_r (rd_raising F avail) ix shape w off = None.
+Proof.
+  unfold partial_read, partial_read_r, fileslice. intros H.
+  destruct (fileslice_h (threshold_heuristic SKIP_THRESH) F ix shape w off OrdF) as [r'|] eqn:E; [|discriminate].
+  injection H as ->.
+  destruct (fileslice_reader F _ (reader_below_raising F avail) _ ix shape w off OrdF r E) as [-> | [e ->]]; [left|right]; reflexivity.
+Qed.
+
+(* a raising stream that can deliver everything is the complete file *)
+Lemma partial_read_raising_complete F avail ix shape w off :
+  zlen F <= avail -> partial_read_r (rd_raising F avail) ix shape w off = partial_read F ix shape w off.
+Proof.
+  intros H. unfold partial_read_r, partial_read, fileslice.
+  assert (E : rd_raising F avail = fread_at F).
+  { unfold rd_raising. destruct (Z.ltb_spec avail (zlen F)); [lia|reflexivity]. }
+  rewrite E, fileslice_r_plain. reflexivity.
+Qed.
